@@ -104,8 +104,10 @@ prop("C16",
 # C19 SoftCollection
 prop("C19",
      family="softcol",
-     mc=lambda tier: [("MC_SoftCollection", _t(tier, "MC_SoftCollection_quick.cfg", "MC_SoftCollection_thorough.cfg"))],
-     gen=lambda tier: ("MC_SoftCollection", _t(tier, "Gen_SoftCollection_quick.cfg", "Gen_SoftCollection_thorough.cfg")),
+     mc=lambda tier: [("MC_SoftCollection", _t(tier, "MC_SoftCollection_quick.cfg", "MC_SoftCollection_thorough.cfg")),
+                      ("MC_SoftCollection", "MC_SoftCollection_ptr.cfg")],
+     gen=lambda tier: [("MC_SoftCollection", _t(tier, "Gen_SoftCollection_quick.cfg", "Gen_SoftCollection_thorough.cfg")),
+                       ("MC_SoftCollection", "Gen_SoftCollection_ptr.cfg")],
      driver=lambda tier, seed, gen, out: ["softcol", "-gen", gen, "-out", out, "-seed", str(seed)] +
      _t(tier, ["-sample", "500", "-walks", "60", "-depth", "40"],
         ["-sample", "12000", "-variants", "2", "-walks", "1500", "-depth", "60"]),
